@@ -162,6 +162,8 @@ pub enum Direction {
 }
 
 mod bibliography;
+#[cfg(feature = "verif-hooks")]
+pub mod verif;
 mod context;
 mod coordinate;
 mod ellipsoid;
